@@ -92,8 +92,10 @@ func genStrVal(r *rand.Rand) string {
 		return "n." + randInt(r)
 	case x < 92:
 		return "b." + pick(r, []string{"true", "false"})
-	case x < 96:
+	case x < 95:
 		return "o"
+	case x < 97:
+		return "l"
 	default:
 		return "f." + strconv.Itoa(r.Intn(100)) + "." + strconv.Itoa(1+r.Intn(9))
 	}
@@ -113,6 +115,8 @@ func genIntVal(r *rand.Rand) string {
 		return "f." + strconv.Itoa(r.Intn(100)) + "." + strconv.Itoa(1+r.Intn(9))
 	case x < 95:
 		return "b." + pick(r, []string{"true", "false"})
+	case x < 97:
+		return "l"
 	default:
 		return "o"
 	}
@@ -148,11 +152,28 @@ func genMD(r *rand.Rand) string {
 		}
 		out = append(out, c20lib.Enc(k)+":"+c20lib.Enc(v))
 	}
+	// one call in eight is REFUSED by the server with a gRPC status of its own choosing (any of the seventeen codes, or
+	// one outside them): the entry still is one call and one sample, reported with ConvertGrpcStatus of that status
+	if r.Intn(8) == 0 {
+		out = append(out, pick(r, []string{"x-fault", "X-Fault", "x-Fault"})+":"+genFaultCode(r))
+		r.Shuffle(len(out), func(a, b int) { out[a], out[b] = out[b], out[a] })
+	}
 	return strings.Join(out, ",")
+}
+
+func genFaultCode(r *rand.Rand) string {
+	if r.Intn(6) == 0 {
+		return pick(r, []string{"17", "99", "200", "255", "0", "07", "x"})
+	}
+	return strconv.Itoa(1 + r.Intn(16))
 }
 
 func genEntry(r *rand.Rand, i int) string {
 	tag := "t" + strconv.Itoa(i) + randText(r, 3, "abcxyz_")
+	// tags are categories, not identifiers: several entries of a file often share one
+	if r.Intn(3) == 0 {
+		tag = pick(r, []string{"hello", "t", "case~1", ""})
+	}
 	if r.Intn(100) < 14 {
 		return tag + "|" + c20lib.Enc(pick(r, unknownCalls)) + "|" + genMD(r) + "|" + pick(r, []string{"", "name:s.x", "a:n.1"})
 	}
@@ -260,6 +281,82 @@ func schedFor(r *rand.Rand, n, shots int) string {
 	return string(sched)
 }
 
+// entryTag: the (encoded) tag of an entry text.
+func entryTag(e string) string {
+	t, _, _ := strings.Cut(e, "|")
+	return t
+}
+
+// provKV: the provider's options and what they act on. Returns the option part of the input, the entries (with
+// undecodable lines !<k> mixed in when continueonerror is on — or, stop=true, off: the provider then stops at the first of
+// them) and the number of ammo the provider will deliver at most.
+//
+//	pas = passes (2, 3; 1 when absent), lim = limit, cc = chosen cases (some of the file's tags and one that no entry
+//	has), coe=1 = continueonerror
+func provKV(r *rand.Rand, es []string, allowStop bool) (string, []string, int) {
+	out := ""
+	passes := 1
+	if r.Intn(4) == 0 {
+		passes = 2 + r.Intn(2)
+		out += fmt.Sprintf(" pas=%d", passes)
+	}
+	per := len(es)
+	if r.Intn(4) == 0 {
+		// undecodable lines among the entries
+		coe := true
+		if allowStop && r.Intn(4) == 0 {
+			coe = false
+		}
+		nb := 1 + r.Intn(3)
+		for i := 0; i < nb; i++ {
+			pos := r.Intn(len(es) + 1)
+			es = append(es[:pos], append([]string{fmt.Sprintf("!%d", r.Intn(8))}, es[pos:]...)...)
+		}
+		per = len(es)
+		if coe {
+			out += " coe=1"
+		}
+	}
+	if r.Intn(5) == 0 {
+		// chosen cases: the tags of some entries, plus a tag nothing has
+		seen := map[string]bool{}
+		var cc []string
+		for _, e := range es {
+			if strings.HasPrefix(e, "!") {
+				continue
+			}
+			if t := entryTag(e); t != "" && !seen[t] && r.Intn(2) == 0 {
+				seen[t] = true
+				cc = append(cc, t)
+			}
+		}
+		cc = append(cc, "nobody")
+		out += " cc=" + strings.Join(cc, ",")
+	}
+	total := per * passes
+	if r.Intn(4) == 0 {
+		lim := 1 + r.Intn(total+2)
+		out += fmt.Sprintf(" lim=%d", lim)
+		if r.Intn(3) == 0 {
+			// unlimited passes: only the limit ends the run
+			out = strings.Replace(out, fmt.Sprintf(" pas=%d", passes), "", 1) + " pas=0"
+			total = lim
+		}
+		if lim < total {
+			total = lim
+		}
+	}
+	return out, es, total
+}
+
+// poolKV: the shared client pool: off; on with 1, 2 … clients; on with a client-number of 0 or below (means one client).
+func poolKV(r *rand.Rand, sizes []int) string {
+	if r.Intn(8) == 0 {
+		return fmt.Sprintf("sc=%d sce=1", pick(r, []int{0, 0, -1, -7, 1, 2}))
+	}
+	return fmt.Sprintf("sc=%d", pick(r, sizes))
+}
+
 func genJSON(r *rand.Rand) string {
 	n := pick(r, []int{1, 1, 2, 4})
 	k := 1 + r.Intn(8)
@@ -267,7 +364,8 @@ func genJSON(r *rand.Rand) string {
 	for i := range es {
 		es[i] = genEntry(r, i)
 	}
-	return fmt.Sprintf("mode=json n=%d sc=%d %s%s oe=%d e=%s", n, pick(r, []int{0, 0, 1, 2}), tmoKV(r), netKV(r), r.Intn(2), strings.Join(es, ";"))
+	prov, es, _ := provKV(r, es, false)
+	return fmt.Sprintf("mode=json n=%d %s %s%s%s oe=%d e=%s", n, poolKV(r, []int{0, 0, 1, 2}), tmoKV(r), netKV(r), prov, r.Intn(2), strings.Join(es, ";"))
 }
 
 // genJSONSched: the same entries fired by hand, entry k by instance sched[k] (exact per-entry trace, connections).
@@ -278,8 +376,17 @@ func genJSONSched(r *rand.Rand) string {
 	for i := range es {
 		es[i] = genEntry(r, i)
 	}
-	return fmt.Sprintf("mode=json run=sched n=%d sc=%d %s%s oe=%d sched=%s e=%s", n, pick(r, []int{0, 0, 1, 2, 3, 7}), tmoKV(r), netKV(r),
-		r.Intn(2), schedFor(r, n, k), strings.Join(es, ";"))
+	prov, es, total := provKV(r, es, true)
+	// as many shots as the provider has ammo, sometimes fewer, sometimes more (the provider's end is then observed)
+	shots := total + pick(r, []int{0, 0, 0, 1, 2, -1})
+	if shots < 1 {
+		shots = 1
+	}
+	if shots > 40 {
+		shots = 40
+	}
+	return fmt.Sprintf("mode=json run=sched n=%d %s %s%s%s oe=%d sched=%s e=%s", n, poolKV(r, []int{0, 0, 1, 2, 3, 7}), tmoKV(r), netKV(r), prov,
+		r.Intn(2), schedFor(r, n, shots), strings.Join(es, ";"))
 }
 
 // genJSONLong: more entries than the provider's queue and ammo pool hold (128), alternating entries that carry
@@ -303,11 +410,56 @@ func genJSONLong(r *rand.Rand, sched bool) string {
 			es[i] = tag + "|" + svc + pick(r, []string{"List", "Order"}) + "|x-only:" + strconv.Itoa(i) + "|"
 		}
 	}
+	// every seventh line cannot be decoded (continueonerror is on): by then the pooled ammo objects are being recycled, and
+	// such a line must cost one failed sample, not a second shot of whatever the object held
+	for i := 6; i < len(es); i += 7 {
+		es[i] = fmt.Sprintf("!%d", r.Intn(8))
+	}
+	prov := " coe=1"
+	shots := k
+	if sched {
+		// the same in two passes over half the file: the second pass meets the first one's objects
+		k = k / 2
+		es = es[:k]
+		prov += " pas=2"
+		shots = 2 * k
+	}
 	n := pick(r, []int{1, 2, 4})
 	if sched {
-		return fmt.Sprintf("mode=json run=sched n=%d sc=%d tmo=0 oe=1 sched=%s e=%s", n, pick(r, []int{0, 2}), schedFor(r, n, k), strings.Join(es, ";"))
+		return fmt.Sprintf("mode=json run=sched n=%d sc=%d tmo=0 oe=1%s sched=%s e=%s", n, pick(r, []int{0, 2}), prov, schedFor(r, n, shots), strings.Join(es, ";"))
 	}
-	return fmt.Sprintf("mode=json n=%d sc=%d tmo=0 oe=1 e=%s", n, pick(r, []int{0, 2}), strings.Join(es, ";"))
+	return fmt.Sprintf("mode=json n=%d sc=%d tmo=0 oe=1%s e=%s", n, pick(r, []int{0, 2}), prov, strings.Join(es, ";"))
+}
+
+// genJSONBig: texts near and beyond the sizes things are buffered with: a payload text that makes the line longer than
+// the scanner's default buffer (64 KiB; the provider's maxammosize option must raise it, in every pass), a metadata value
+// of several KiB; next to ordinary entries.
+func genJSONBig(r *rand.Rand) string {
+	big := 66000 + r.Intn(30000)
+	mdLen := 1000 + r.Intn(7000)
+	small := "s|" + svc + "Hello|k:v|name:s." + c20lib.Enc(randText(r, 5, "klmnop"))
+	bigE := fmt.Sprintf("b|%sHello|x-big:*%d*%s|name:s.*%d*%s", svc, mdLen, pick(r, []string{"v", "w"}), big, pick(r, []string{"a", "b"}))
+	midE := fmt.Sprintf("m|%sHello|x-mid:*%d*m|name:s.*%d*c", svc, 400+r.Intn(3000), 20000+r.Intn(30000))
+	es := []string{small, bigE, small, midE}
+	r.Shuffle(len(es), func(a, b int) { es[a], es[b] = es[b], es[a] })
+	opts := ""
+	passes := 1
+	switch r.Intn(4) {
+	case 0:
+		// default buffer: the provider stops at the big line
+	case 1:
+		opts = fmt.Sprintf(" mas=%d", 40000+r.Intn(20000)) // a smaller buffer than the default: stops at the mid one too
+	default:
+		opts = fmt.Sprintf(" mas=%d", big+10000+r.Intn(100000))
+		if r.Intn(2) == 0 {
+			passes = 2
+			opts += " pas=2"
+		}
+	}
+	if r.Intn(2) == 0 {
+		opts += " coe=1" // makes no difference for a line that is too long
+	}
+	return fmt.Sprintf("mode=json run=sched n=1 sc=0 tmo=0 oe=0%s sched=%s e=%s", opts, strings.Repeat("0", len(es)*passes+1), strings.Join(es, ";"))
 }
 
 // ---------------------------------------------------------------- scenarios
@@ -348,9 +500,26 @@ func genScen(r *rand.Rand, engine bool) string {
 		calls = append(calls, name+"|"+svc+"Hello|"+spell(r, strings.Join(md, ","))+"|"+spell(r, payload)+"|u")
 		okCalls = append(okCalls, name)
 	}
+	// (deterministic runs only) steps the SERVER refuses: by an injected status (a constant, or rendered: {N} prints 4 =
+	// DeadlineExceeded) or because the credentials are wrong; with and without an assert/response postprocessor
+	// demanding 200 (a failed assertion ends the shot after the call; without one the shot goes on)
+	var refusedCalls []string
+	if !engine && r.Intn(3) == 0 {
+		fmd := pick(r, []string{"x-fault:" + strconv.Itoa(1+r.Intn(16)), "x-fault:{N}", "X-Fault:1{N}", "x-fault:7,x-u:{U}"})
+		calls = append(calls, "flt|"+svc+"Hello|"+spell(r, fmd)+"|"+spell(r, "name:s.f{U}")+"|u|"+pick(r, []string{"", "", "a200", "a403"}))
+		refusedCalls = append(refusedCalls, "flt")
+	}
 	if withAuth {
 		amd := pick(r, []string{"", "x-user:{U}", "x-g:{G},x-user:login-{U}"})
-		calls = append(calls, "auth|"+svc+"Auth|"+spell(r, amd)+"|"+spell(r, "login:s.{U},pass:s.{U}")+"|u")
+		pass := "{U}"
+		assert := ""
+		if !engine && r.Intn(4) == 0 {
+			pass = "x{U}" // wrong password: Auth answers InvalidArgument, the steps after it see no token
+		}
+		if !engine && r.Intn(3) == 0 {
+			assert = "|" + pick(r, []string{"a200", "a200", "a400"})
+		}
+		calls = append(calls, "auth|"+svc+"Auth|"+spell(r, amd)+"|"+spell(r, "login:s.{U},pass:s."+pass)+"|u"+assert)
 		lmd := pick(r, []string{"authorization:Bearer~{A}", "authorization:Bearer~{A},x-uid:{I}", "x-uid:id-{I}-{G}"})
 		calls = append(calls, "list|"+svc+"List|"+spell(r, lmd)+"|"+spell(r, "user_id:n.{I},token:s.{A}")+"|-")
 		calls = append(calls, "order|"+svc+"Order|"+spell(r, "authorization:Bearer~{A}")+"|"+spell(r, "user_id:n.{I},token:s.{A},item_id:n.{I}0")+strconv.Itoa(10+r.Intn(89))+"|-")
@@ -387,7 +556,8 @@ func genScen(r *rand.Rand, engine bool) string {
 			bad = spell(r, bad)
 			pre := pick(r, []string{"u", "-"})
 			if r.Intn(2) == 0 {
-				calls = append(calls, "terr|"+svc+"Hello|"+spell(r, "x-g:{G},x-e:v"+bad+",x-r:{R}")+"|name:s.x|"+pre)
+				// sometimes two faults at once: a template that fails AND a payload that does not fit (the template fails first: 0)
+				calls = append(calls, "terr|"+svc+"Hello|"+spell(r, "x-g:{G},x-e:v"+bad+",x-r:{R}")+"|"+pick(r, []string{"name:s.x", "name:s.x", "name:n.5", "nme:s.x"})+"|"+pre)
 			} else {
 				calls = append(calls, "terr|"+svc+"Hello|"+spell(r, "x-g:{G}")+"|name:s.a"+bad+"|"+pre)
 			}
@@ -401,10 +571,17 @@ func genScen(r *rand.Rand, engine bool) string {
 		k := 1 + r.Intn(3)
 		for i := 0; i < k; i++ {
 			req := pick(r, okCalls)
-			if r.Intn(4) == 0 {
+			switch r.Intn(8) {
+			case 0, 1:
 				req += "*2"
+			case 2:
+				req += "*2_" + strconv.Itoa(5+r.Intn(30)) // name(2, sleep ms)
 			}
 			reqs = append(reqs, req)
+		}
+		if len(refusedCalls) > 0 && r.Intn(3) != 0 {
+			pos := r.Intn(len(reqs) + 1)
+			reqs = append(reqs[:pos], append([]string{pick(r, refusedCalls)}, reqs[pos:]...)...)
 		}
 		if withAuth && r.Intn(2) == 0 {
 			reqs = append(reqs, "auth", "list")
@@ -424,6 +601,26 @@ func genScen(r *rand.Rand, engine bool) string {
 			reqs = append(reqs[:pos], append([]string{pick(r, failCalls)}, reqs[pos:]...)...)
 		}
 		scns = append(scns, fmt.Sprintf("s%d:%d:%s", s, 1+r.Intn(3), strings.Join(reqs, "+")))
+	}
+	// a name defined twice: the provider's registry keeps the LAST definition; the shadowed one (other method, other
+	// templates) must never be shot
+	if r.Intn(5) == 0 {
+		victim := pick(r, calls)
+		name, _, _ := strings.Cut(victim, "|")
+		shadow := name + "|" + svc + pick(r, []string{"Stats", "Hello", "Nope"}) + "|x-shadow:s-{G}|" + pick(r, []string{"", "name:s.shadow"}) + "|-"
+		if r.Intn(4) == 0 {
+			// … or the other way round: the original is shadowed by a later definition
+			calls = append(calls, name+"|"+svc+"Hello|x-later:l-{G}|name:s.later|-")
+		} else {
+			pos := 0
+			for i, c := range calls {
+				if c == victim {
+					pos = i
+				}
+			}
+			pos = r.Intn(pos + 1)
+			calls = append(calls[:pos], append([]string{shadow}, calls[pos:]...)...)
+		}
 	}
 	base := fmt.Sprintf("mode=scen run=@RUN@ n=%d %s%s users=%s g=%s calls=%s scns=%s", n, tmoKV(r), netKV(r),
 		strings.Join(users, ","), c20lib.Enc(genG(r)), strings.Join(calls, ";"), strings.Join(scns, ";"))
@@ -628,9 +825,9 @@ func genExhaustive() []string {
 }
 
 func gen(r *rand.Rand, tier string) []string {
-	nj, njs, nl, ns, nc, ne, nsl, nsp := 40, 40, 1, 60, 10, 6, 1, 6
+	nj, njs, nl, ns, nc, ne, nsl, nsp, nb := 40, 50, 1, 70, 10, 6, 1, 6, 2
 	if tier == "thorough" {
-		nj, njs, nl, ns, nc, ne, nsl, nsp = 3000, 3000, 24, 5000, 600, 300, 10, 400
+		nj, njs, nl, ns, nc, ne, nsl, nsp, nb = 2600, 2600, 20, 4400, 500, 300, 10, 400, 40
 	}
 	out := []string{"mode=table", "mode=table rp=1", "mode=table rp=1 rmd=1", "mode=table rmd=1"}
 	for i := 0; i < nsp; i++ {
@@ -644,6 +841,9 @@ func gen(r *rand.Rand, tier string) []string {
 	}
 	for i := 0; i < nl; i++ {
 		out = append(out, genJSONLong(r, true), genJSONLong(r, false))
+	}
+	for i := 0; i < nb; i++ {
+		out = append(out, genJSONBig(r))
 	}
 	for i := 0; i < nj; i++ {
 		out = append(out, genJSON(r))
